@@ -4,6 +4,7 @@ Property theorems only; helper lemmas live in `Dtn7.Lemmas.Tcpcl`.
 -/
 import Dtn7.Model.Tcpcl
 import Dtn7.Lemmas.Tcpcl
+import Dtn7.Lemmas.TcpclDemux
 import Dtn7.Gen.C11
 
 namespace Dtn7.Props.C11
@@ -92,9 +93,21 @@ theorem demux_independent (tab : Table) (m : Msg) (tab' : Table) (d) (k : Nat) (
     (h : demuxStep tab m = some (tab', d)) : tab'.get k = tab.get k :=
   Lemmas.demuxStep_other tab m tab' d k hk h
 
+/-- **Concurrent transfers**: let `ms` be ANY interleaving of segment trains with pairwise
+different transfer ids — for every id `k` the segments of `k` inside `ms` are either absent or a
+train that meets the Spec for `data k` (for instance the sender's, by `segments_ok`). Then the
+receiving manager hands up, for every such `k`, exactly one bundle, `data k`, and nothing else. -/
+theorem demux_exact (data : Nat → Bytes) (m : Nat) (ms : List Msg)
+    (h : ∀ k, Lemmas.proj k ms = [] ∨ SegmentsOk (data k) m (Lemmas.proj k ms))
+    (k : Nat) (d : Bytes) :
+    (demux [] ms).count (k, d) = if Lemmas.proj k ms ≠ [] ∧ d = data k then 1 else 0 :=
+  Lemmas.demux_exact data ms [] (Lemmas.good_fresh data m ms h) k d
+
 /-! Non-vacuity: concrete instances of the hypotheses. -/
 example : SegmentsOk [1, 2, 3, 4, 5] 2 (segments true 2 [1, 2, 3, 4, 5]) := by decide
 example : SegmentsOk [1, 2, 3, 4] 2 (segments true 2 [1, 2, 3, 4]) := by decide
+example : demux [] [⟨1, ⟨true, false, [1]⟩⟩, ⟨2, ⟨true, false, [7]⟩⟩, ⟨1, ⟨false, true, [2]⟩⟩, ⟨2, ⟨false, true, [8]⟩⟩]
+    = [(1, [1, 2]), (2, [7, 8])] := by decide
 example : send [.ack 2, .ack 4, .allSent 4] = .ok := by decide
 example : send [.ack 2, .allSent 4, .timeout] = .error := by decide
 example : (receive {} (segments true 2 [1, 2, 3, 4])).1 = [.ack 2, .ack 4] := by decide
